@@ -45,6 +45,15 @@ CLAIMED['C08'] = dict(
    technique="Coq proof (partial) + outcome-class correspondence on malformed and arbitrary strings + known-finding classifiers",
    design_ref="5/C08")
 
+CLAIMED['C11'] = dict(
+   text="Kernel-checked theorems over ALL finite call histories of the history model (props/C11.v): after any history a decode/encode returns the pure function of its input and the current table (memo layer proved coherent along every history, the decoder/encoder proved to depend on the capacity lookup only pointwise); two histories ending in the same table translate alike (long history vs fresh interpreter); encoder(strict=False) is independent of table and history. Model tied to the code by replaying random histories in fresh interpreters (several hash seeds) against the model, against a fresh interpreter set to the final table, and against a pristine interpreter.",
+   technique="Coq proof (cache-coherence invariant over histories + extensionality of the translators in the capacity lookup) + history replay correspondence in fresh interpreters",
+   design_ref="5/C11")
+CLAIMED['C12'] = dict(
+   text="Kernel-checked theorems over all histories (props/C12.v): heap-separation invariant reachable everywhere (no library dict is ever in the caller's hands), set-then-get returns an equal dict and the current table is stable under everything but a successful set, presets never change, every rejected update leaves the world identical, which updates are rejected; the full no-aliasing statement is REFUTED on the faithful model for the alphabet set (known finding, with the 3-step witness). Model of bond_constraints.py tied by replaying random histories (every rejection reason, caller mutations, re-submitted mutated dicts) in fresh interpreters; oracle = abstract map in lock-step + comparison with a clean history of accepted updates.",
+   technique="Coq proof (heap separation invariant over histories) + refutation witness + history replay correspondence + abstract-map oracle",
+   design_ref="5/C12")
+
 PENDING = {}
 for i in range(1, 20):
     pid = 'C%02d' % i
